@@ -382,3 +382,57 @@ func c01H2URLFromReceived(c *Ctx) {
 		c.Unresolved("C01.R9", "stores to Request.URL in the HTTP/2 client's AppendHeaders")
 	}
 }
+
+// c01RawViewsConsistent (R3): the request-id patch hits the bytes that are sent.
+// A decoded bolt / boltv2 frame keeps its wire bytes (rawData) and a view of the fixed header inside them (rawMeta); the
+// fast path patches the request id through rawMeta and returns the buffer that wraps rawData. That is sound only while
+// rawMeta is a slice of the *current* rawData: whoever replaces rawData (a cached re-encode, a pooled copy) and leaves
+// rawMeta behind makes every later patch land in a dead buffer - the frame goes out with the id of an earlier attempt
+// and its response is delivered to nobody, or to the stream that owns that id. Clause: in the codec packages every store to
+// a frame's rawData is followed on every path to the function's exit by a store to the same frame's rawMeta whose value is
+// a slice of that new rawData.
+func c01RawViewsConsistent(c *Ctx) {
+	n := 0
+	ord := ordCounter{}
+	for _, pkg := range []string{"pkg/protocol/xprotocol/bolt", "pkg/protocol/xprotocol/boltv2"} {
+		for _, fn := range c.PkgFuncs(pkg) {
+			forEachInstr(fn, false, func(f *ssa.Function, in ssa.Instruction) {
+				st, ok := in.(*ssa.Store)
+				if !ok {
+					return
+				}
+				_, fld, base, okf := fieldAddrInfo(st.Addr)
+				if !okf || fld != "rawData" {
+					return
+				}
+				n++
+				isRederive := func(x ssa.Instruction) bool {
+					s2, ok := x.(*ssa.Store)
+					if !ok {
+						return false
+					}
+					_, f2, b2, ok2 := fieldAddrInfo(s2.Addr)
+					if !ok2 || f2 != "rawMeta" || b2 != base {
+						return false
+					}
+					sl, isSl := s2.Val.(*ssa.Slice)
+					if !isSl {
+						return false
+					}
+					if sl.X == st.Val {
+						return true
+					}
+					if _, f3, b3, ok3 := loadedField(sl.X); ok3 && f3 == "rawData" && b3 == base {
+						return true
+					}
+					return false
+				}
+				bad := existsPath(f, in, isReturn, isRederive)
+				c.Check("C01.R3", ord.next(f, "raw-views-consistent"), st.Pos(), bad == nil, "rawMeta is re-derived from the new rawData", "a frame's rawData is replaced in "+f.Name()+" without re-deriving rawMeta from it: the fast path keeps patching the request id into the previous buffer, so from the next encode on the frame is sent with a stale id and its response is attributed to another stream (or dropped)")
+			})
+		}
+	}
+	if n < 4 {
+		c.Unresolved("C01.R3", fmt.Sprintf("stores to rawData in the bolt / boltv2 codecs (found %d)", n))
+	}
+}
